@@ -88,24 +88,6 @@ Lemma wrap_assoc c k r n : c < n -> k < n -> r < n ->
   wrap (wrap (c + k) n + r) n = wrap (c + wrap (r + k) n) n.
 Proof. intros. unfold wrap. case_cmp; fin. Qed.
 
-Lemma in_row_cell v a c r : wf_view v -> c < vcols v -> a < vrows v -> r < vrows v ->
-  in_win (row_win v a) (v_cell v c r) = (a =? r).
-Proof.
-  intros Hwf Hc Ha Hr. destruct (Nat.eqb_spec a r) as [->|Hne]; [apply in_win_row_cell; exact Hc|].
-  destruct (in_win (row_win v a) (v_cell v c r)) eqn:Ein; [|reflexivity].
-  exfalso. unfold in_win in Ein. apply Bool.andb_true_iff in Ein. destruct Ein as [X1 X2].
-  apply Nat.leb_le in X1. apply Nat.ltb_lt in X2. cbn [row_win off len] in X1, X2.
-  destruct (v_cell_inj v c r (v_cell v c r - (off (vw v) + a * vstride v)) a Hwf Hc) as [_ Heq];
-    [lia|unfold v_cell in *; lia|congruence].
-Qed.
-
-Lemma row_win_fits v b r : wf_view v -> fits v b -> r < vrows v ->
-  off (row_win v r) + vcols v <= length b.
-Proof.
-  intros Hwf Hb Hr. destruct (row_win_inside v r Hwf Hr) as [_ H]. unfold fits in Hb.
-  cbn [row_win off len] in *. lia.
-Qed.
-
 Definition st_swap (nc : nat) (st : rstate) (base next mid : nat) : rstate :=
   fun r => if r =? next then (fst (st base), wrap (snd (st base) + mid) nc)
            else if r =? base then (fst (st next), wrap (snd (st next) + wrap (nc - mid) nc) nc)
